@@ -92,11 +92,26 @@ def build(channel, spec, settings, tmpdir, plugin):
     return hist.reload(comp, channel, tmpdir, 'c06', plugins=plug), {}
 
 
-def one_system(ctx, spec, info, channel, settings, target, plugin):
+def as_container(target, container):
+    import collections
+    if not isinstance(target, list):
+        return target
+    if container == 'list':
+        return list(target)
+    if container == 'deque':
+        return collections.deque(target)
+    if container == 'generator':
+        return (a for a in target)
+    return tuple(target)
+
+
+def one_system(ctx, spec, info, channel, settings, target, plugin, container=None):
     install()
     its, tol = settings
     case = {'kind': 'system', 'spec': spec, 'info': info, 'channel': channel, 'settings': list(settings),
-            'target': target, 'plugin': plugin}
+            'target': target, 'plugin': plugin, 'container': container}
+    if container:
+        ctx.count('container:' + container)
     LOG.update(begin=None, passes=[], sets=[], armed=False)
     try:
         comp, kw = build(channel, spec, settings, ctx.tmpdir, plugin)
@@ -109,7 +124,7 @@ def one_system(ctx, spec, info, channel, settings, target, plugin):
         return
     plugins.reset()
     LOG.update(begin=None, passes=[], armed=True)
-    tgt = tuple(target) if isinstance(target, list) else target
+    tgt = as_container(target, container)
     out = wb.outcome(comp.evaluate, tgt, **kw)
     LOG['armed'] = False
     passes, sets, begin = list(LOG['passes']), list(LOG['sets']), LOG['begin']
@@ -198,7 +213,7 @@ def one_system(ctx, spec, info, channel, settings, target, plugin):
     if channel == 'args':
         # a later call without arguments must use the workbook's own settings again (100, 0.001)
         LOG.update(begin=None, passes=[], armed=True)
-        out2 = wb.outcome(comp.evaluate, tgt)
+        out2 = wb.outcome(comp.evaluate, as_container(target, container))
         LOG['armed'] = False
         ctx.count('second_call_without_arguments')
         if LOG['begin'] != (100, 0.001):
@@ -234,8 +249,17 @@ def systems(ctx, rng):
     if rng.random() < 0.15:
         settings = (100, 0.001)
     r = rng.random()
-    target = list(info['cells']) if r < 0.2 else rng.choice(info['cells'])
-    one_system(ctx, spec, info, channel, settings, target, plugin)
+    target = list(info['cells']) if r < 0.3 else rng.choice(info['cells'])
+    container = rng.choice(['tuple', 'list', 'deque', 'generator']) if isinstance(target, list) else None
+    if rng.random() < 0.2 and channel in ('args', 'mem', 'xlsx'):
+        # a cell whose whole formula is a reference into the loop, and a reader of it as the target
+        cells = spec['sheets'][0][1]
+        first = info['cells'][0].rsplit('!', 1)[1]
+        cells['H1'] = rng.choice([f'=OFFSET({first},0,0)', f'=INDIRECT("{first}")'])
+        cells['H2'] = '=H1+0'
+        target, container = info['cells'][0].rsplit('!', 1)[0] + '!H2', None
+        ctx.count('target_reads_a_reference_valued_cell')
+    one_system(ctx, spec, info, channel, settings, target, plugin, container)
 
 
 # --------------------------------------------------------------------------- acyclic twins
@@ -388,6 +412,6 @@ def run(ctx):
 def replay(ctx, case):
     if case['kind'] == 'system':
         one_system(ctx, case['spec'], case['info'], case['channel'], tuple(case['settings']),
-                   case['target'], case['plugin'])
+                   case['target'], case['plugin'], case.get('container'))
     else:
         one_twin(ctx, case['spec'], case['meta'], case['channel'], ops=case['ops'])
